@@ -828,6 +828,9 @@ fn test_exp() {
 ///
 /// These functions evaluates the hyperbolic sine function of a value in ***a***.
 pub fn sinh(x: P32E2) -> P32E2 {
+    if x.is_nar() {
+        return P32E2::NAR;
+    }
     let e = kernel::exp_m1(x.abs());
     let mut y = (e + TWO) / (e + ONE) * (HALF * e);
 
@@ -883,6 +886,9 @@ fn test_cosh() {
 ///
 /// These functions evaluates the hyperbolic tangent function of a value in ***a***.
 pub fn tanh(x: P32E2) -> P32E2 {
+    if x.is_nar() {
+        return P32E2::NAR;
+    }
     let mut y = x.abs();
     let d = kernel::exp_m1(TWO * y);
     y = d / (d + TWO);
